@@ -518,6 +518,24 @@ func (fi *fnInfo) symSite(ins ssa.Instruction, b *ssa.BasicBlock) (Site, bool) {
 	}
 	if best == -1<<30 {
 		s.Have = 0
+		// even the smallest value the offset can have exceeds the length established here
+		if lbReq := fi.intLB(req, b, 0); lbReq > -1<<39 && lbReq >= 0 {
+			needLB := lbReq + extra
+			have := fi.minLen(sl, b, map[ssa.Value]bool{})
+			if have < needLB {
+				s3 := Site{Fn: fi.fn, Ins: ins, Slice: sl, Need: needLB, Have: have, What: what + fmt.Sprintf(" (offset at least %d)", lbReq), Class: "SAFE", Root: chainOf(sl).root}
+				fi.classify(&s3, b)
+				if s3.Class == "DEF" {
+					slv, blk := sl, b
+					if fi.correlatedRelevant(blk, func() bool { return fi.minLen(slv, blk, map[ssa.Value]bool{}) >= needLB }) {
+						s3.Class, s3.Why = "UNK-corr", "a length test that would cover this access holds on some of the paths that reach it"
+					}
+				}
+				if s3.Class == "DEF" || s3.Class == "CAND-param" {
+					return s3, true
+				}
+			}
+		}
 		// first-iteration instance of a loop-carried offset with a constant start
 		if need0, ok := fi.firstIter(req, b); ok {
 			need0 += extra
